@@ -25,6 +25,8 @@ func c10(r *core.Report) {
 	r.Rule("C10-COPY-THEN-MARK", "a part is copied before it is marked present", 1)
 	r.Rule("C10-OWN-COPY", "fragments are copied out of the borrowed packet buffer", 2)
 	ruleCopies(r)
+	r.Rule("C10-OFFSET-ORDER-FREE", "the position a fragment is copied to depends on that fragment and on fields fixed at construction only", 1)
+	ruleOffsetOrderFree(r, "C10-OFFSET-ORDER-FREE")
 	r.Rule("C10-ID-ATOMIC", "a fragmented message's id is read and advanced in one critical section (or by one atomic add)", 2)
 	ruleFragIDAtomic(r, "C10-ID-ATOMIC")
 }
@@ -464,4 +466,59 @@ func ruleCopies(r *core.Report) {
 		}
 	}
 	r.Check(okF && nst > 0, "C10-OWN-COPY", core.FnName(aap), p.Pos(aap.Pos()), "the part kept is a fresh copy of the packet's bytes", "the aggregator keeps a slice of the borrowed packet buffer: the next packet received into that buffer rewrites a part of a message still being assembled")
+}
+
+// ruleOffsetOrderFree (shared by C10 and C11): fragments arrive in any order, so where a fragment is
+// copied to must be a function of that fragment (its index, its length) and of collector fields that
+// are fixed when the collector is created. A field the collector learns from whichever fragment is
+// handled first (a remembered part size) makes the layout depend on arrival order: with the short last
+// part first, the other parts land at overlapping offsets and a full-length message of wrong bytes is
+// delivered.
+func ruleOffsetOrderFree(r *core.Report, ruleID string) {
+	p := r.P
+	ap := needFn(r, "p/mbapp", "collector.addPart")
+	nc := needFn(r, "p/mbapp", "newCollector")
+	col := needNamed(r, "p/mbapp", "collector")
+	if ap == nil || nc == nil || col == nil {
+		return
+	}
+	// fields of collector written outside newCollector
+	mutable := map[string]string{}
+	st := col.Underlying().(*types.Struct)
+	for i := 0; i < st.NumFields(); i++ {
+		f := st.Field(i)
+		for _, fn := range p.ModFuncs {
+			if fn == nc || strings.Contains(fn.String(), "_test") {
+				continue
+			}
+			if len(core.StoresToField(fn, f)) > 0 {
+				mutable[f.Name()] = core.FnName(fn)
+			}
+		}
+	}
+	n := 0
+	for _, in := range core.AllInstrs(ap) {
+		c, ok := in.(*ssa.Call)
+		if !ok || !core.IsBuiltin(c.Common(), "copy") {
+			continue
+		}
+		sl, ok := core.Through(c.Call.Args[0]).(*ssa.Slice)
+		if !ok || sl.Low == nil {
+			continue
+		}
+		n++
+		bad := ""
+		core.BackSlice(sl.Low, func(x ssa.Value) bool {
+			if f, base := core.FieldRead(x); f != nil && base != nil && isNamed(base.Type(), col) {
+				if w, isMut := mutable[f.Name()]; isMut {
+					bad = f.Name() + " (written by " + w + ")"
+				}
+			}
+			return true
+		})
+		r.Check(bad == "", ruleID, core.FnName(ap)+" copy offset", p.Pos(c.Pos()), "the offset derives from the fragment's own index and length and from fields set only by newCollector", "the copy offset depends on collector state that is written while fragments arrive: "+bad+": the layout of the reassembled message depends on the order of arrival (short last part first => overlapping parts, wrong bytes delivered as a complete message)")
+	}
+	if n == 0 {
+		r.Fail("%s: no copy into the collector buffer at a computed offset found in addPart", ruleID)
+	}
 }
